@@ -93,7 +93,10 @@ Inductive fmt := FMaxQuant | FPercNative | FMokapot | FFragPipe | FSage | FDiann
 Definition rawrow := (str * list str * option Q)%type.
 
 Definition drop_ends (s : str) : str := removelast (tl s).      (* s[1:-1] *)
-Definition has_flanks (s : str) : bool := startswith (s2l "-.") s && startswith (s2l "-.") (rev s).
+(* flanking residues as Percolator writes them: "-.PEPTIDE.-", "K.PEPTIDE.A" - the second and the second-last character are dots
+   and there are at least four characters (the form with two hyphens only was recognised before the repair D17) *)
+Definition second_is_dot (s : str) : bool := match s with _ :: c :: _ => N.eqb c 46%N | _ => false end.
+Definition has_flanks (s : str) : bool := (4 <=? length s)%nat && second_is_dot s && second_is_dot (rev s).
 Definition strip_flanks (s : str) : str := firstn (length s - 4) (skipn 2 s).    (* s[2:-2] *)
 
 (* [num] turns a score cell into the PEP the parser computes from it *)
